@@ -17,6 +17,7 @@
 //
 // (AddCommunityAction/AddLargeCommunityAction do not implement actions.Action - their Do takes the
 // prefix by value - so no chain can contain them; they are not part of the language.)
+//
 //	sess   = "S:" kind ":" maxpaths ":" role   kind = ebgp|rs|ibgp|rr ; role = -|prov|rs|rsc|cust|peer
 package aro
 
@@ -734,7 +735,7 @@ func (r *Rec) AddPath(pfx *bnet.Prefix, p *route.Path) error {
 	return nil
 }
 func (r *Rec) AddPathInitialDump(pfx *bnet.Prefix, p *route.Path) error { return r.AddPath(pfx, p) }
-func (r *Rec) EndOfRIB()                                                 {}
+func (r *Rec) EndOfRIB()                                                {}
 func (r *Rec) RemovePath(pfx *bnet.Prefix, p *route.Path) bool {
 	ps, err := Describe(p)
 	c := RecCall{Pfx: PfxID(pfx), Path: p, PS: ps, Err: err}
